@@ -172,6 +172,38 @@ func init() {
 		return nil
 	})
 	reg("AtReplayEnd", func(m *Machine, fn *ssa.Function, a []Value) Value { return nil })
+	reg("Field", func(m *Machine, fn *ssa.Function, a []Value) Value {
+		p := a[0].(Iface)
+		name := m.argStr(a[1])
+		pt, ok := p.T.Underlying().(*types.Pointer)
+		if !ok {
+			m.notEnc("zz.Field on non-pointer %s", p.T)
+		}
+		var pkg *types.Package
+		if n, ok := pt.Elem().(*types.Named); ok {
+			pkg = n.Obj().Pkg()
+		}
+		obj, index, _ := types.LookupFieldOrMethod(pt.Elem(), true, pkg, name)
+		fv, ok := obj.(*types.Var)
+		if !ok {
+			m.notEnc("zz.Field: no field %s in %s", name, pt.Elem())
+		}
+		c := p.V.(Ptr).C
+		if c == nil {
+			m.goPanic("zz.Field on nil pointer")
+		}
+		for _, ix := range index {
+			c = c.Kids[ix]
+			if pp, ok := c.T.Underlying().(*types.Pointer); ok && len(index) > 1 && c.leaf {
+				_ = pp
+			}
+		}
+		val := m.load(c)
+		if _, isI := fv.Type().Underlying().(*types.Interface); isI {
+			return val
+		}
+		return Iface{T: fv.Type(), V: val}
+	})
 	reg("PermuteMaps", func(m *Machine, fn *ssa.Function, a []Value) Value {
 		m.permuteMaps = a[0].(*sym.Term).IsTrue()
 		return nil
